@@ -38,7 +38,7 @@ class P(vlib.Prop):
                   "directory mutation touches (below the directory through non-link entries plus the targets of link entries; declared values inside, untouched outside), a frame theorem (kinds and link targets never change, "
                   "changed modes/owners are declared ones, a simple mutation changes at most the node its path resolves to) and, for arbitrary lists, application in order (a node keeps what a mutation gave it unless a later one touches it; "
                   "the later one wins); well-formedness is preserved by every operation, mutation, list, by mutateAccounts and etc/apko.json, so only the initial tree is constrained; fuel of walk/dump proved sufficient on well-formed heaps; "
-                  "two refutations on the model with replays on the code (account fields with separators, empty-file with a trailing slash); constants, formats, the mutator table, Validate's character tests, mutateEmptyFile's target expression and the "
+                  "accepted configurations are clean (Validate's character sets read from the source), empty-file paths with a trailing slash are covered since the path is cleaned; the two pre-fix shapes are kept as labelled hypotheticals with armed tags and replays; constants, formats, the mutator table, Validate's character tests, mutateEmptyFile's target expression and the "
                   "order of buildImage's steps are regenerated from the source on every run; the model is tied to the code by differential comparison of error/no error, passwd/group text and parsed entries, run-as, "
                   "every path's kind/mode/uid/gid/target and the tar layer — for the two functions alone and for whole builds through build.New/BuildLayer and the CLI — and the validators are run on what the real code produced.")
     level_note = ("trusted: Coq kernel, goextract, Go harness/printer and its tar reader/resolver, harness/synthrepo; modelled not verified: the Go text of accounts.go/paths.go/passwd.go/group.go/build_implementation.go and of the two in-memory "
